@@ -29,8 +29,15 @@ NUM_VALUES = [0.0, 1.0, float("nan")]
 
 @st.composite
 def conds(draw):
-    k = draw(st.integers(0, 16))
+    k = draw(st.integers(0, 20))
     f = lambda: draw(st.sampled_from(FLAGS))   # noqa: E731
+    if k == 17:
+        return ["not", ["and", f(), f()]]          # holds whenever one of the two is false
+    if k == 18:
+        return ["not", ["or", f(), ["not", f()]]]
+    if k >= 19:
+        # constant guards that are not the literals True / False (a NumPy comparison of two coefficients, a 0/1 switch)
+        return ["const", draw(st.sampled_from([0, 1, 0.0, 2.5, "npFalse", "npTrue", "npint0", "npint3"]))]
     if k >= 14:
         # comparisons of numeric variables (valuations include NaN, for which "not a <= b" and "a > b" differ)
         cmp_ = ["cmp", draw(st.sampled_from(NUMS)), draw(st.sampled_from(["<", "<=", ">", ">=", "==", "!="])),
@@ -94,6 +101,10 @@ def cond_expr(c):
     if isinstance(c, list) and c[0] == "not":
         from pymbolic.primitives import LogicalNot
         return LogicalNot(cond_expr(c[1]))
+    if isinstance(c, list) and c[0] == "const":
+        import numpy as np
+        return {"npFalse": np.False_, "npTrue": np.True_, "npint0": np.int64(0), "npint3": np.int64(3)}.get(c[1], c[1]) \
+            if isinstance(c[1], str) else c[1]
     if isinstance(c, list) and c[0] == "cmp":
         from pymbolic.primitives import Comparison, Variable
         return Comparison(Variable(c[1]), c[2], Variable(c[3]) if isinstance(c[3], str) else c[3])
